@@ -1272,17 +1272,18 @@ class Array:
         legs = [LegCharge.from_add_charge([leg, leg2], chinfo) for (leg, leg2) in zip(self.legs, add_legs)]
         if qtotal is None:
             for block, slices, _, _ in self:
+                if not np.any(block):
+                    continue  # a stored block of zeros tells nothing about the charge
                 leg_slices = []
                 for leg, sl in zip(add_legs, slices):
                     mask = np.zeros(leg.ind_len, np.bool_)
                     mask[sl] = True
                     leg_slices.append(leg.project(mask)[2])
-                qtotal = detect_qtotal(self.to_ndarray(), leg_slices)
+                qtotal = detect_qtotal(block, leg_slices)
                 break
             else:
                 raise ValueError("no non-zero entry: can't detect qtotal")
-        else:
-            qtotal = np.concatenate((self.qtotal, np.array(qtotal, dtype=QTYPE)))
+        qtotal = np.concatenate((self.qtotal, np.array(qtotal, dtype=QTYPE)))
         res = Array(legs, self.dtype, qtotal, self._labels)
         for block, slices, _, _ in self:  # use __iter__
             res[slices] = block  # use __setitem__
